@@ -91,7 +91,8 @@ class C28(Prop):
                   "the real WorkflowConfig/get_binding_config and the model on generated StreamFlow configurations.")
     LEVEL_NOTE = ("The cycle clause is proved in both directions: a rejection names a genuine cycle, and a wraps cycle reachable "
                   "from a declared deployment is never accepted (C28_cycles_never_accepted; with all references defined the "
-                  "answer is the definition error, C28_cycles). Trusted: Coq kernel + vm_compute; the hand-written model (tied "
+                  "answer is the definition error, C28_cycles); C28_cycles_iff states it as one equivalence for unique names and "
+                  "defined references, superseding the two statements whose (pinned) names still end in _partial. Trusted: Coq kernel + vm_compute; the hand-written model (tied "
                   "to the code by the correspondence run); PurePosixPath.parts is modelled for '/'-separated ASCII paths; "
                   "Target.__init__'s `or` chain is in Corr.v. No axioms.")
     TECHNIQUE = "Coq proof (induction over paths / binding lists / fuel with a pigeonhole bound) + vm_compute correspondence"
